@@ -132,8 +132,9 @@ prop('C30', prefix=['c30', 'c29'],
              'row/column records), xlsx import/export of the pools')
 prop('C31', prefix=['c31'],
      bounds='Model::set_cells_with_result on a dynamic anchor with an array result of 1x1..2x2 arbitrary finite numbers; each of the three neighbour cells is absent, '
-            'an empty styled cell, user content, a stale spill of this anchor or a spill of another anchor (symbolic styles and anchor); anchor in the last row / column',
-     outside='staleness across evaluation passes (evaluate_cell clearing old spills), undo, structural edits and paste - histories through the evaluator; larger results')
+            'an empty styled cell, user content, a stale spill of this anchor or a spill of another anchor (symbolic styles and anchor); anchor in the last row / column; through the real evaluator: =SEQUENCE($A$1) at an anchor anywhere in rows/columns 2..=4 shrinking from 3 rows to 1 or 2 on re-evaluation, '
+            'and the horizontal spill =F1:H1 at A3 after deleting column G or H and re-evaluating',
+     outside='other shrink/grow histories, undo, paste, row edits, 2-D spills through the evaluator; results larger than 2x2 in the write step')
 prop('C33', prefix=['c33'],
      bounds='CF coordinates: row/column/position/count/offset any i32 inside the grid, sheet ids any u32; links: 2 links at any distinct in-grid '
             'cells, insert/delete any position and count, block move <=2 by |offset| <=2; a CellIs/Between rule on G20:H22 with bounds B2 and $C$3 under insert/delete of '
